@@ -26,4 +26,9 @@ pub broadcast group g_shapes {
     crate::vl_layout::ax_size_of_point, crate::vl_layout::lemma_enc_xys_parts_push, crate::vl_layout::lemma_enc_ms_parts_push, crate::vl_layout::lemma_enc_zs_parts_push,
     crate::vl_points::g_points,
 }
+/// io + sizes only (shape modules whose bodies compose the reader/writer steps)
+pub broadcast group g_shape_rw {
+    crate::vp_bytes::g_bytes, vstd::layout::group_layout_axioms, crate::vp_io::g_ws, crate::vp_io::g_rs,
+    crate::vp_io::lemma_splice_len, crate::vp_io::g_wr, crate::vl_types::lemma_discriminants, crate::vl_layout::ax_size_of_point,
+}
 }
